@@ -444,10 +444,12 @@ def _paren_depth(s):
 MAX_PAREN = 6
 
 
-def check_paren_depth(pool, recs, L, seed):
+def check_paren_depth(pool, recs, L, seed, bad_pairs):
     chk = Check("parenthesis-depth", "parse_selection (recursive-descent depth of the infixNotation grammar), Topology.select",
-                bound=f"parenthesis nesting 1..{MAX_PAREN} x 2 shapes (k pairs around one condition; right-nested chain a and (b or (c and (...)))) x 5 leaf categories",
-                rule="exhaustive; Python's default recursion limit (1000) is left untouched",
+                bound=f"parenthesis nesting 1..{MAX_PAREN} x 2 shapes (k pairs around one condition; right-nested chain a and (b and (c and (...)))) "
+                      f"x 5 leaf categories x and/&&/or/||",
+                rule="exhaustive; Python's default recursion limit (1000) is left untouched; chains containing an operator pair "
+                     "already reported by `operator-pairs` are skipped",
                 stands_in_for="C12 parentheses clause", exhaustive=True)
     rng = random.Random(seed * 613 + 3)
     cases = []
@@ -455,13 +457,15 @@ def check_paren_depth(pool, recs, L, seed):
         for cat in "BSWIR":
             lf = _pick(L, cat, rng.randrange(1000))
             cases.append(("(" * k + lf.text + ")" * k, k, "wrapped"))
-            parts = [_pick(L, cat if i % 2 == 0 else "B", rng.randrange(1000)).text for i in range(k + 1)]
-            s = parts[-1]
-            for i in range(k - 1, -1, -1):
-                s = f"{parts[i]} {'and' if i % 2 == 0 else 'or'} ({s})"
-            cases.append((s, k, "chain"))
+            for kind, sp in (("and", "and"), ("and", "&&"), ("or", "or"), ("or", "||")):
+                t = _pick(L, cat, rng.randrange(1000))
+                for i in range(k):
+                    t = (kind, sp, _pick(L, cat if i % 2 else "B", rng.randrange(1000)), t)
+                s, seqs = render(t)
+                if not (pairs_of(seqs) & bad_pairs):
+                    cases.append((s, k, "chain"))
     results = _evaluate_many([c[0] for c in cases], pool)
-    limit = None
+    limit = {}
     for (expr, k, shape), res in sorted(zip(cases, results), key=lambda cr: cr[0][1]):
         try:
             v = _judge(expr, res, recs)
@@ -471,11 +475,10 @@ def check_paren_depth(pool, recs, L, seed):
             chk.ok(nontrivial=(k, shape), sample={"expr": expr, "depth": k})
             continue
         clause, kind, what, obs, exp = v
-        if limit is None or k < limit:
-            limit = k
-        chk.fail(clause, f"parentheses:nesting-depth>={limit}:{kind}", what + f"  [parenthesis nesting depth {k}]",
+        limit.setdefault(kind, k)
+        chk.fail(clause, f"parentheses:nesting-depth>={limit[kind]}:{kind}", what + f"  [parenthesis nesting depth {k}]",
                  {"expr": expr}, observed=obs, expected=exp)
-    return chk, limit
+    return chk, limit.get("RecursionError")
 
 
 def _structures(max_depth):
@@ -754,7 +757,7 @@ def run(tier, seed, hint):
     with ProcessPoolExecutor(max_workers=workers) as pool:
         c1 = check_leaf_forms(pool, recs, L, tier)
         c2, bad = check_operator_pairs(pool, recs, L, seed)
-        c5, paren_limit = check_paren_depth(pool, recs, L, seed)
+        c5, paren_limit = check_paren_depth(pool, recs, L, seed, set(bad))
         c3 = check_nesting(pool, recs, L, tier, seed, set(bad), paren_limit)
         c4 = check_malformed(pool, recs, L, seed)
     return [c1, c2, c5, c3, c4]
